@@ -1416,7 +1416,7 @@ emitdata(struct decl *d, struct init *init)
 	struct init *cur;
 	struct type *t;
 	unsigned long long offset = 0, start, end, bits = 0;
-	size_t i;
+	size_t i, n;
 	int align;
 
 	align = d->u.obj.align;
@@ -1441,6 +1441,13 @@ emitdata(struct decl *d, struct init *init)
 			assert(cur->expr->kind == EXPRSTRING);
 			assert(init->expr->kind == EXPRCONST);
 			i = (init->start - cur->start) / cur->expr->type->base->size;
+			if (i >= cur->expr->u.string.size) {
+				/* the array is longer than the string, extend the string with zeros */
+				n = (cur->end - cur->start) / cur->expr->type->base->size;
+				cur->expr->u.string.data = xreallocarray(cur->expr->u.string.data, n, cur->expr->type->base->size);
+				memset((char *)cur->expr->u.string.data + cur->expr->u.string.size * cur->expr->type->base->size, 0, (n - cur->expr->u.string.size) * cur->expr->type->base->size);
+				cur->expr->u.string.size = n;
+			}
 			switch (cur->expr->type->base->size) {
 			case 1: ((unsigned char *)cur->expr->u.string.data)[i]  = init->expr->u.constant.u; break;
 			case 2: ((uint_least16_t *)cur->expr->u.string.data)[i] = init->expr->u.constant.u; break;
